@@ -175,7 +175,7 @@ def body(max_steps, c):
     try:
         for step in range(n_steps):
             kind = c.choice(["ok_call", "failing_call", "failing_call", "closure_fault", "closure_reuse", "reentrant", "canary", "closure_fault_ckpt",
-                             "mutate_result", "lazy_operator"])
+                             "mutate_result", "lazy_operator", "recorded_graph"])
             x0 = c.choice([0.7, 1.1, 1.6])
             if kind == "canary":
                 history.append(["canary"])
@@ -265,6 +265,37 @@ def body(max_steps, c):
                             return fail("history_dependence", f"step {step}: call {i} of one make_{which} operator object, evaluated after later calls of the same "
                                         f"object, gives ({float(val)!r}, {float(tan)!r}); its own arguments give ({want_v!r}, {want_d!r})",
                                         bucket("lazy_operator"), sample=sample)
+                saw_deep_caught = True
+                continue
+            if kind == "recorded_graph":
+                # autograd.misc.const_graph: the call that records the graph fails (once or twice); later calls of the same wrapper, plain
+                # and under grad, give what the function gives
+                from autograd.misc.tracers import const_graph
+
+                history.append(["recorded_graph", x0])
+                xs = onp.array([x0, 0.5, -0.3])
+                fails = [c.int(1, 2)]
+
+                def model(t, k):
+                    if fails[0] > 0:
+                        fails[0] -= 1
+                        return P["fwd_boom_always"](t)
+                    return anp.sum(anp.sin(t * k) * t)
+
+                cg = const_graph(model)
+                for _ in range(2):
+                    try:
+                        cg(xs, 2.0)
+                    except Fault:
+                        pass
+                want_v = float(onp.sum(onp.sin(xs * 2.0) * xs))
+                want_g = 2.0 * onp.cos(2.0 * xs) * xs + onp.sin(2.0 * xs)
+                got_v = cg(xs, 2.0)
+                got_g = autograd.grad(lambda t: cg(t, 2.0))(xs)
+                got_v2 = cg(xs * 0.5, 2.0)
+                if abs(float(got_v) - want_v) > 1e-12 or not onp.allclose(got_g, want_g, rtol=1e-12, atol=1e-12) or abs(float(got_v2) - float(onp.sum(onp.sin(xs) * xs * 0.5))) > 1e-12:
+                    return fail("history_dependence", f"step {step}: a const_graph wrapper whose first call(s) failed gives {float(got_v)!r}, {onp.asarray(got_g).tolist()} "
+                                f"instead of {want_v!r}, {want_g.tolist()}", bucket("recorded_graph"), sample=sample)
                 saw_deep_caught = True
                 continue
             if kind == "mutate_result":
@@ -401,7 +432,7 @@ def body(max_steps, c):
         onp.random.set_state(rnd0)
         state["boom_at"] = None
         state["bwd_fail"] = False
-    c.features.update(n_steps=n_steps)
+    c.features.update(n_steps=n_steps, step_kinds=sorted({h[0] for h in history}))
     labels = sorted({"step=" + h[0] for h in history}) + sorted({"fault=" + h[2] for h in history if h[0] == "failing_call"})
     return ok(nontrivial=saw_deep_caught and canary_after, key=json.dumps(history), labels=labels, sample=sample)
 
